@@ -17,7 +17,7 @@ from .lib import libcall
 def sup_case(draw, nmax=10, kinds=("sup",), nq=(0, 0), nu=(0, 0), modes=("pre", "pre", "feat"), nmin=2, metrics=None, kmax=4, wmode=None, big_labels=True):
     model = draw(st.sampled_from(list(kinds)))
     mode = draw(st.sampled_from(list(modes)))
-    nt = draw(st.one_of(st.integers(nmin, max(nmin, min(nmax, 6))), st.integers(nmin, nmax)))
+    nt = draw(st.one_of(st.integers(nmin, max(nmin, min(nmax, 6))), st.integers(nmin, nmax))) if nmin < 20 else draw(st.integers(nmin, nmax))
     n_u = draw(st.integers(nu[0], nu[1])) if model == "semi" else 0
     n_q = draw(st.integers(nq[0], nq[1]))
     Y = draw(gen.labels(nt, 2, kmax))
